@@ -227,6 +227,11 @@ def stream_param(fn_node):
         if isinstance(n, ast.Call) and isinstance(n.func, ast.Attribute) and n.func.attr in ("append", "extend") and \
                 isinstance(n.func.value, ast.Name) and n.func.value.id in prm:
             return n.func.value.id
+    for n in ast.walk(fn_node):
+        # the dispatcher itself: the value is the parameter whose type() selects the dumper, the stream is the other one
+        if isinstance(n, ast.Call) and isinstance(n.func, ast.Name) and n.func.id == "type" and len(n.args) == 1 and \
+                isinstance(n.args[0], ast.Name) and n.args[0].id in prm:
+            return [p_ for p_ in prm if p_ != n.args[0].id][0]
     return prm[1]
 
 
